@@ -502,7 +502,12 @@ func c13TaggedContents(c *Ctx) error {
 	types := []string{"", "config", "config|noreplace", "dir", "symlink", "tree", "ghost", "doc", "licence", "license", "readme"}
 	for _, ty := range types {
 		for _, tg := range append([]string{""}, Formats...) {
-			for _, withBlock := range []bool{false, true} {
+			for _, wb := range []int{0, 1, 2, 3} {
+				// 2, 3: the entry is also marked `expand: true` (its paths go through the environment expansion at parse time)
+				withBlock, expand := wb%2 == 1, wb >= 2
+				if expand && tg == "" {
+					continue
+				}
 				var e strings.Builder
 				switch ty {
 				case "symlink":
@@ -519,14 +524,17 @@ func c13TaggedContents(c *Ctx) error {
 				if tg != "" {
 					fmt.Fprintf(&e, "  packager: %s\n", tg)
 				}
+				if expand {
+					e.WriteString("  expand: true\n")
+				}
 				for _, f := range Formats {
 					doc := "name: verifpkg\narch: amd64\nplatform: linux\nversion: 1.2.3\nmaintainer: Verif <verif@example.com>\ndescription: verification package\n" +
 						"mtime: 2023-11-14T22:13:20Z\ncontents:\n- src: " + filepath.Join(tree.Root, "bin/tool") + "\n  dst: /usr/bin/plain\n" + e.String()
 					if withBlock {
 						doc += "overrides:\n  " + f + ":\n    depends: [only-" + f + "]\n"
 					}
-					in := map[string]any{"entry_type": ty, "entry_packager": tg, "format": f, "override_block": withBlock, "document": doc}
-					key := fmt.Sprintf("%s|%s|%v|%s", ty, tg, withBlock, f)
+					in := map[string]any{"entry_type": ty, "entry_packager": tg, "format": f, "override_block": withBlock, "expand": expand, "document": doc}
+					key := fmt.Sprintf("%s|%s|%v|%v|%s", ty, tg, withBlock, expand, f)
 					cfg, perr := nfpm.Parse(strings.NewReader(doc))
 					if perr != nil {
 						fam.Eval(key, false)
@@ -726,9 +734,22 @@ func runC13(c *Ctx) error {
 		if _, err := nfpm.Get(name); err == nil {
 			c.Rep.Find(report.Finding{Property: "C13", Family: "override-block-names", Shape: "registry-hands-out-packager-for-unregistered-name", What: fmt.Sprintf("nfpm.Get(%q) returns a packager; Config.Get(%q) would package without the override block of the registered name", name, name), Input: map[string]any{"format": name}})
 		}
-		doc := fmt.Sprintf("name: p\narch: amd64\nversion: 1.0.0\noverrides:\n  %q:\n    homepage: https://example.com\n", name)
-		if _, err := nfpm.Parse(strings.NewReader(doc)); err == nil {
-			c.Rep.Find(report.Finding{Property: "C13", Family: "override-block-names", Shape: "parse-accepts-unknown-override", What: fmt.Sprintf("nfpm.Parse accepted an override block for %q", name), Input: map[string]any{"document": doc}})
+		// … and the same name with a block that has nothing under it (`debb:` followed by nothing decodes to a nil block):
+		// the name is what is validated, not the block's contents
+		famV.Eval("bad-nil|"+name, true)
+		cfgNil := &nfpm.Config{Info: nfpm.Info{Name: "p", Arch: "amd64", Version: "1.0.0"}, Overrides: map[string]*nfpm.Overridables{name: nil}}
+		if err := cfgNil.Validate(); err == nil {
+			c.Rep.Find(report.Finding{Property: "C13", Family: "override-block-names", Shape: "validate-accepts-unknown-override:empty-block", What: fmt.Sprintf("Validate accepted an override block without settings for %q, which is not a registered packager", name), Input: map[string]any{"overrides": name, "block": "nil"}})
+		}
+		for _, body := range []string{"    depends: [x]\n", ""} {
+			doc := fmt.Sprintf("name: p\narch: amd64\nversion: 1.0.0\noverrides:\n  %q:\n%s", name, body)
+			cfgP, err := nfpm.Parse(strings.NewReader(doc))
+			if err == nil {
+				err = cfgP.Validate()
+			}
+			if err == nil {
+				c.Rep.Find(report.Finding{Property: "C13", Family: "override-block-names", Shape: "parse-and-validate-accept-unknown-override", What: fmt.Sprintf("nfpm.Parse and Config.Validate accepted an override block for %q", name), Input: map[string]any{"document": doc}})
+			}
 		}
 	}
 	for _, f := range Formats {
